@@ -185,4 +185,241 @@ theorem admitC_no_publish (s : Server) (n : Nat) (k' : Connect) (k : Nat) (m : M
       injection hox with _ hpk
       cases hpk
 
+/-! ### a resuming CONNECT hands the record over, exactly -/
+
+theorem stopClient_inflight_x (s : Server) (e x : Nat) :
+    (getObj (stopClient s e).1 x).inflight = (getObj s x).inflight := by
+  unfold stopClient
+  extract_lets +onlyGivenNames c
+  split
+  · rfl
+  · show (getObj (setObj s e _) x).inflight = _
+    by_cases hx : x = e
+    · subst hx
+      rcases getObj_setObj_self_cases s x { c with isOpen := false, stopped := true } with h | h <;> rw [h]
+    · rw [getObj_setObj_ne s e x _ hx]
+
+theorem disconnectClient_inflight_x (s : Server) (e code x : Nat) :
+    (getObj (disconnectClient s e code).1 x).inflight = (getObj s x).inflight := by
+  unfold disconnectClient
+  extract_lets +onlyGivenNames c w
+  split
+  rename_i s' o heq
+  have := stopClient_inflight_x s e x
+  rw [heq] at this
+  exact this
+
+theorem clearInflights_getObj_ne_x (s : Server) (e x : Nat) (h : x ≠ e) :
+    getObj (clearInflights s e) x = getObj s x := by
+  unfold clearInflights
+  exact getObj_setObj_ne s e x _ h
+
+theorem flGet_infl_eq {a b : Client} (h : b.inflight = a.inflight) (k : Nat) : flGet b k = flGet a k := by
+  unfold flGet; rw [h]
+
+/-- `inheritClientSession` without Clean Start, the old session not an MQTT 3 clean one: session present, the new
+    object `n` has exactly the old object's record under `k` and is as live as it was -/
+theorem admitA_exact (k : Nat) (s : Server) (n : Nat) (k' : Connect) (e : Nat)
+    (he : assocGet s.clients k'.id = some e) (hne : n ≠ e) (hn : n < s.objs.length) (hcl : k'.clean = false)
+    (h3 : ((getObj s e).clean && (getObj s e).ver < 5) = false) :
+    (admitA s n k').2.2.1 = true ∧
+    LiveEq (getObj s n) (getObj (admitA s n k').1 n) ∧
+    (∀ m, flGet (getObj s e) k = some m → flGet (getObj (admitA s n k').1 n) k = some m) := by
+  unfold admitA
+  extract_lets +onlyGivenNames src s0 exLive
+  split
+  rename_i s' o1 present heq
+  show present = true ∧ LiveEq (getObj s n) (getObj s' n) ∧
+    (∀ m, flGet (getObj s e) k = some m → flGet (getObj s' n) k = some m)
+  split at heq
+  · rename_i e' he'
+    have he' : assocGet s.clients k'.id = some e' := he'
+    rw [he] at he'; cases he'
+    extract_lets +onlyGivenNames ex at heq
+    split at heq
+    rename_i s1 o hd
+    have hf1 := disconnectClient_frame s0 e 0x8E
+    have hi1 := disconnectClient_inflight_x s0 e 0x8E
+    rw [hd] at hf1 hi1
+    have hl1 : s1.objs.length = s.objs.length := hf1.len
+    split at heq
+    · rename_i hclean
+      have : (k'.clean || (ex.clean && decide (ex.ver < 5))) = true := hclean
+      have hex : ex = getObj s e := rfl
+      rw [hcl, hex, h3] at this
+      cases this
+    · extract_lets +onlyGivenNames s2 ex2 rmx s2i src2 s3 s4 s5 s6 at heq
+      have hs' := (Prod.mk.inj heq).1
+      have hp' := (Prod.mk.inj (Prod.mk.inj heq).2).2
+      refine ⟨hp'.symm, ?_⟩
+      rw [← hs']
+      have hl2 : s2.objs.length = s.objs.length := (setObj_length s1 e _).trans hl1
+      have e2n : getObj s2 n = getObj s1 n := getObj_setObj_ne s1 e n _ hne
+      have live2 : LiveEq (getObj s n) (getObj s2 n) := by
+        rw [e2n]; exact (hf1.other n hne).live
+      have ex2i : ex2.inflight = (getObj s e).inflight := by
+        show (getObj (setObj s1 e _) e).inflight = _
+        rcases getObj_setObj_self_cases s1 e ((fun x => { x with takenOver := true }) (getObj s1 e)) with h | h
+        · rw [h]; exact hi1 e
+        · rw [h]; exact hi1 e
+      have inv3 : LiveEq (getObj s n) (getObj s3 n) ∧
+          (ex2.inflight.length > 0 → (getObj s3 n).inflight = ex2.inflight) := by
+        show LiveEq (getObj s n) (getObj (if ex2.inflight.length > 0 then _ else s2) n) ∧
+          (ex2.inflight.length > 0 → (getObj (if ex2.inflight.length > 0 then _ else s2) n).inflight = ex2.inflight)
+        split
+        · have en : getObj s2i n = _ := getObj_setObj_eq s2 n _ (by rw [hl2]; exact hn)
+          refine ⟨?_, fun _ => ?_⟩
+          · show LiveEq (getObj s n) (getObj s2i n)
+            rw [en]
+            exact live2.trans ⟨rfl, rfl, rfl, rfl, rfl⟩
+          · show (getObj s2i n).inflight = ex2.inflight
+            rw [en]
+        · rename_i hno
+          exact ⟨live2, fun hpos => absurd hpos hno⟩
+      have inv4 : LiveEq (getObj s n) (getObj s4 n) ∧
+          (ex2.inflight.length > 0 → (getObj s4 n).inflight = ex2.inflight) := by
+        refine foldl_inv (fun (x : Server) => LiveEq (getObj s n) (getObj x n) ∧
+          (ex2.inflight.length > 0 → (getObj x n).inflight = ex2.inflight)) _ _ _ inv3 ?_
+        intro b fs hb
+        extract_lets +onlyGivenNames rr src3 b1
+        show LiveEq (getObj s n) (getObj (setObj b1 n _) n) ∧
+          (ex2.inflight.length > 0 → (getObj (setObj b1 n _) n).inflight = ex2.inflight)
+        rcases getObj_setObj_self_cases b1 n ((fun x => { x with subs := assocSet x.subs fs.2.filter fs.2 })
+          (getObj b1 n)) with h | h
+        · rw [h]
+          exact ⟨hb.1.trans ⟨rfl, rfl, rfl, rfl, rfl⟩, hb.2⟩
+        · rw [h]
+          exact hb
+      have e6 : getObj s6 n = getObj s4 n := by
+        show getObj (clearInflights s5 e) n = _
+        rw [clearInflights_getObj_ne_x s5 e n hne]
+        show getObj (unsubscribeClient s4 e) n = _
+        rw [getObj_of_objs_eq (unsubscribeClient_objs s4 e) n, getObj_setObj_ne s4 e n _ hne]
+      rw [e6]
+      refine ⟨inv4.1, fun m hm => ?_⟩
+      have hpos : ex2.inflight.length > 0 := by
+        rw [ex2i]
+        have := (flGet_mem_sv hm).1
+        cases hl : (getObj s e).inflight with
+        | nil => rw [hl] at this; cases this
+        | cons a as => simp
+      rw [flGet_infl_eq ((inv4.2 hpos).trans ex2i) k]
+      exact hm
+  · rename_i hnone
+    have hnone : assocGet s.clients k'.id = none := hnone
+    rw [he] at hnone; cases hnone
+
+theorem admitConnack_exact (s : Server) (n conn : Nat) (present : Bool) (x : Nat) :
+    LiveEq (getObj s x) (getObj (admitConnack s n conn present).1 x) ∧
+    (getObj (admitConnack s n conn present).1 x).inflight = (getObj s x).inflight := by
+  unfold admitConnack
+  extract_lets +onlyGivenNames cl
+  split
+  rename_i s' seiOut heq
+  show LiveEq (getObj s x) (getObj s' x) ∧ (getObj s' x).inflight = (getObj s x).inflight
+  split at heq
+  · cases heq
+    by_cases hx : x = n
+    · subst hx
+      unfold modObj
+      rcases getObj_setObj_self_cases s x ((fun y => { y with sei := s.caps.maxSessionExpiry, fsei := true })
+        (getObj s x)) with h | h <;> rw [h]
+      · exact ⟨⟨rfl, rfl, rfl, rfl, rfl⟩, rfl⟩
+      · exact ⟨LiveEq.refl _, rfl⟩
+    · unfold modObj
+      rw [getObj_setObj_ne s n x _ hx]
+      exact ⟨LiveEq.refl _, rfl⟩
+  · cases heq
+    exact ⟨LiveEq.refl _, rfl⟩
+
+/-! ### the resuming CONNECT, assembled -/
+
+/-- a CONNECT without Clean Start for a client id whose session (object `e`, not an MQTT 3 clean one) has a record `m`
+    under `k`: the outputs of `attachClient` up to the read loop end with the outputs of the resend loop, run in a
+    state where the new object has exactly that record and is live -/
+theorem connect_resend_split (k : Nat) (s : Server) (conn : Nat) (k' : Connect) (e : Nat) (m : Msg) (hw : WF s)
+    (hf : conn ∉ s.connOf.map (·.1)) (he : assocGet s.clients k'.id = some e)
+    (hm : flGet (getObj s e) k = some m) (hadm : refuseCode s k' (parseConnect s conn k') = none)
+    (hcl : k'.clean = false) (h3 : ((getObj s e).clean && (getObj s e).ver < 5) = false) :
+    ∃ pre s3, (connect s conn k').2 = pre ++ (admitC s3 s.objs.length k' true).2 ∧
+      flGet (getObj s3 s.objs.length) k = some m ∧ ObjWF (getObj s3 s.objs.length) ∧
+      (getObj s3 s.objs.length).isOpen = true ∧ (getObj s3 s.objs.length).inline = false ∧
+      (getObj s3 s.objs.length).peerGone = false ∧ (getObj s3 s.objs.length).conn = conn ∧
+      (getObj s3 s.objs.length).ver = k'.ver := by
+  unfold connect
+  extract_lets +onlyGivenNames c n s0
+  have w0 : WF s0 := hw.addObj c conn (parseConnect_wf s conn k') hf
+  have hel : e < s.objs.length := (hw.clients_valid _ _ (assocGet_mem _ _ _ he)).1
+  have e0 : getObj s0 e = getObj s e := getObj_append_lt (s := s) (s' := s0) (c := c) rfl e hel
+  have en : getObj s0 n = c := getObj_append_eq (s := s) (s' := s0) (c := c) rfl
+  have hn0 : n < s0.objs.length := by
+    show s.objs.length < (s.objs ++ [c]).length
+    simp
+  have hne : n ≠ e := Nat.ne_of_gt hel
+  have hnid : (getObj s0 n).id = k'.id := by rw [en]; rfl
+  have hadm0 : refuseCode s0 k' c = none := by
+    rw [refuseCode_congr_sv (s := s) (s' := s0) rfl rfl rfl]; exact hadm
+  rw [hadm0]
+  dsimp only
+  obtain ⟨hpres, hlive1, hex1⟩ := admitA_exact k s0 n k' e he hne hn0 hcl (by rw [e0]; exact h3)
+  have w1 := admitA_wf s0 n k' w0 hn0 hnid
+  have hexl := admitA_exLive_cnt s0 n k'
+  unfold admitClient
+  split
+  rename_i s1 o1 present exLive h1
+  rw [h1] at hpres hlive1 hex1 w1 hexl
+  have hpres : present = true := hpres
+  split
+  rename_i s2 o2 h2
+  have hB := admitConnack_exact s1 n conn present n
+  have w2 := admitConnack_wf s1 n conn present w1
+  rw [h2] at hB w2
+  split
+  rename_i s3 o4 h3'
+  have hX : LiveEq (getObj s2 n) (getObj s3 n) ∧ (∀ m, flGet (getObj s2 n) k = some m → flGet (getObj s3 n) k = some m) ∧
+      WF s3 := by
+    split at h3'
+    · rename_i e'
+      have hee : e' = e := by
+        have := hexl e' rfl
+        rw [he] at this; cases this; rfl
+      subst hee
+      have hx := detach_survxw k s2 e' true n hne
+      have w3 := detach_wf s2 e' true w2
+      rw [h3'] at hx w3
+      exact ⟨hx.live, hx.keep, w3⟩
+    · cases h3'
+      exact ⟨LiveEq.refl _, fun _ h => h, w2⟩
+  split
+  rename_i s4 o3 h4
+  have hlive : LiveEq c (getObj s3 n) := by
+    have := (hlive1.trans hB.1).trans hX.1
+    rw [en] at this; exact this
+  refine ⟨o1 ++ o2 ++ o4, s3, ?_, ?_, hX.2.2.allWF n, ?_, ?_, ?_, ?_, ?_⟩
+  · show o1 ++ o2 ++ o4 ++ o3 = o1 ++ o2 ++ o4 ++ (admitC s3 n k' true).2
+    rw [← hpres, h4]
+  · apply hX.2.1
+    rw [flGet_infl_eq hB.2 k]
+    apply hex1
+    rw [e0]; exact hm
+  · rw [hlive.isOpen]; rfl
+  · rw [hlive.inline]; rfl
+  · rw [hlive.peerGone]; rfl
+  · rw [hlive.conn]; rfl
+  · rw [hlive.ver]; rfl
+
+/-- the outputs of `attachClient` are outputs of the `connect` op (which adds the barrier's) -/
+theorem step_connect_out_sub (s : Server) (conn : Nat) (k' : Connect) (o : Out) (h : o ∈ (connect s conn k').2) :
+    o ∈ (step s (.connect conn k')).2 := by
+  rw [step]
+  split
+  rename_i s' os hcon
+  rw [hcon] at h
+  split
+  · split
+    · split
+      exact List.mem_append_left _ h
+    · exact h
+  · exact h
+
 end Mochi.Broker
